@@ -247,3 +247,43 @@ def run(ctx):
 
     # ---------------------------------------------------------------- R11.4
     pairing_instances(ctx, em, "R11.4")
+
+    # ---------------------------------------------------------------- R11.5
+    ctx.rule("R11.5", "a position that ends (removed, or reset to size 0 with a zeroed checkpoint) is settled through a remain-margin result, so its pending funding is charged", 3)
+    from .c03 import transfers_of
+    for (st, root, depth, ckey) in sorted(em.steps.values(), key=lambda x: (x[3], x[2])):
+        bad = None
+        n = 0
+        for q in st.ok_paths():
+            ends = bool(em.removed_position(st, q))
+            for val in em.stored_position(st, q):
+                if N(ix, sym.field(val, "size")) == ("pos", ("int", 0)) and N(ix, sym.field(val, "last_updated_premium_fraction")) == ("pos", ("int", 0)):
+                    ends = True
+            if not ends:
+                continue
+            n += 1
+            rms = em.remain_margin_calls(q)
+            used = False
+            for e in rms:
+                rv = e.result
+                # the settlement must depend on the result: a transfer amount, the re-stored in-flight record or State
+                for s_ in em.emitted(q):
+                    for (_k, _payer, _recv, amount) in transfers_of(ix, s_):
+                        if amount is not None and rv in set(sym.walk(amount)):
+                            used = True
+                for wr in ix.writes_on_path(q):
+                    if wr["value"] is not None and wr["item"] in (TMP, STATE) and rv in set(sym.walk(wr["value"])):
+                        used = True
+                for e2 in q.events:
+                    if e2 is not e and any(rv in set(sym.walk(a)) for a in e2.args) and e2.target is not None:
+                        used = True
+                # or the payout decisions are taken on it (margin vs fee, bad debt present)
+                for (at, o, _b, _l) in q.conds:
+                    if rv in set(sym.walk(at)) and not (tag(at) == "op" and payload(at)[0] == "is_ok"):
+                        used = True
+            if not used:
+                bad = bad or q
+        if n:
+            ctx.inst("R11.5", "settled-on-end:%s:%s" % (short_fn(st.fn), st.label), bad is None, st.fn.where(),
+                     "%d success paths end the position; %s" % (n, "each settles it through a remain-margin result (funding charged)" if bad is None else
+                        "a path ends the position WITHOUT a remain-margin computation: funding accrued since the checkpoint is neither charged nor paid"))
